@@ -196,6 +196,27 @@ def escLevelCases : List String := Id.run do
           out := s!"P {if fl < 2 then 1 else 0} d:{hexOf { hdr := hdr, mbs := mbs }}" :: out
   return out.reverse
 
+/-- INTER blocks that code ALL 64 zig-zag positions (64 events with run 0; an INTER block has no INTRADC), and INTRA blocks with
+all 63 AC positions: an I picture and a P picture of one macroblock whose six blocks are full; Sorenson v0 / v1 escapes and short
+codes mixed, several quantizers -/
+def fullBlockCases : List String := Id.run do
+  let mut out : List String := []
+  for fl in [0, 1] do
+    for q in [(1 : Nat), 2, 9, 16, 31] do
+      for v in [(0 : Nat), 1, 2] do
+        let lv (k : Nat) : Int := (if (k + v) % 2 = 0 then (1 : Int) else -1) * ((1 + ((k * 7 + v * 3 + q) % 20 : Nat) : Nat) : Int)
+        let form (k : Nat) : Form := if v = 2 then .short else if fl = 0 then .esc8 else if k % 3 = 0 then .esc11 else .esc7
+        let ev (k : Nat) : Event := { run := 0, level := (if v = 2 then (if k % 2 = 0 then 1 else -1) else lv k), form := form k }
+        let full64 : BlockD := { dc := none, events := (List.range 64).map ev }
+        let full63 : BlockD := { dc := some 90, events := (List.range 63).map ev }
+        let dcOnly : BlockD := { dc := some 77 }
+        let imb : MbD := { stuffing := 0, kind := .coded .intra 0 (0, 0) ((0, 0), (0, 0), (0, 0)) [full63, dcOnly, full63, dcOnly, full63, full63] }
+        let pmb : MbD := { stuffing := 0, kind := .coded .inter 0 (1, -1) ((0, 0), (0, 0), (0, 0)) [full64, full64, {}, full64, full64, {}] }
+        let hdr (pt : Nat) : HdrD := .sorenson { version := fl, tr := 1 + pt, sizeCode := 0, customW := 16, customH := 16, picType := pt,
+                                                 deblock := false, quant := q, extra := [] }
+        out := s!"P 1 d:{hexOf { hdr := hdr 0, mbs := [imb] }};d:{hexOf { hdr := hdr 1, mbs := [pmb] }}" :: out
+  return out.reverse
+
 /-- pictures whose declared width or height sits at the top of the 16-bit range (the other dimension small): header plus the
 first macroblocks; both Sorenson versions -/
 def edgeSizeCases (pp : Bool) (count : Nat) : G (List String) := do
@@ -279,6 +300,19 @@ def shapeSwitchCases : G (List String) := do
         ops := s!"d:{hexOf p}" :: ops
         k := k + 1
       out := ("P 1 " ++ ";".intercalate ops.reverse) :: out
+  pure out.reverse
+
+/-- PLUSPTYPE custom picture formats at the ends of the CPFMT ranges: heights of 1024 lines and more (PHI above 255), the largest
+(1152), widths up to 2048, and the smallest (4 x 4): intra pictures, every macroblock present -/
+def tallPlusCases (count : Nat) : G (List String) := do
+  let mut out : List String := []
+  let sizes : List (Nat × Nat) := [(16, 1028), (8, 1152), (16, 1024), (2048, 16), (2044, 4), (4, 4), (16, 1020), (12, 516), (1028, 8)]
+  for d in sizes.take (if count = 0 then sizes.length else count) do
+    let p ← genPic { flavour := 3 } 0 d 11 true
+    let p : PicD := match p.hdr with
+      | .plus hh => { p with hdr := .plus { hh with ufep := true } }
+      | _ => p
+    out := s!"P 0 d:{hexOf p}" :: out
   pure out.reverse
 
 /-- hand-built stress streams for C01: zero sizes, 11-bit levels at high quantizers, more macroblock data than the picture
@@ -431,8 +465,9 @@ def runGen (kind : String) (seed count : Nat) : List String :=
   if kind == "leak" then ((leakCases count).run (seed * 2654435761 + 55)).1 else
   if kind == "bigintra" then ((bigIntraCases count).run (seed * 2654435761 + 56)).1 else
   if kind == "stress" then (stressCases.run (seed * 2654435761 + 7)).1 else
-  if kind == "esclevels" then escLevelCases else
+  if kind == "esclevels" then escLevelCases ++ fullBlockCases else
   if kind == "bigconcat" then ((bigConcatCases count).run (seed * 2654435761 + 77)).1 else
+  if kind == "tallplus" then ((tallPlusCases count).run (seed * 2654435761 + 35)).1 else
   if kind == "shapeswitch" then (shapeSwitchCases.run (seed * 2654435761 + 34)).1 else
   if kind == "junction" then ((junctionCases count).run (seed * 2654435761 + 33)).1 else
   if kind == "edgeconcat" then ((edgeConcatCases count).run (seed * 2654435761 + 32)).1 else
